@@ -297,6 +297,9 @@ def run(chk, S: Session):
     _run_own(chk, S)
     from ..harness import borrow
 
-    rb = chk.rule("R-C02-B", "clauses of this statement decided by rules of C04 (calibration bookkeeping of the initial-constraint update) and C17 (documented Jacobian block structure)", floor=4)
+    rb = chk.rule("R-C02-B", "clauses of this statement decided by rules of C04 (calibration bookkeeping of the initial-constraint update), C17 (documented Jacobian block structure), C11 (observation damping) and C03 (calibrated covariances of the filter output)", floor=4)
     borrow(chk, S, rb, "C04", lambda r, c: r == "R-C04-2" and "init" in c)
     borrow(chk, S, rb, "C17", lambda r, c: r == "R-C17-1")
+    # observation damping of every linearised model (C11) and the calibration of everything the filter returns, including the initial marginal (C03)
+    borrow(chk, S, rb, "C11", lambda r, c: r == "R-C11-5" and ("damping" in c or "undamped" in c))
+    borrow(chk, S, rb, "C03", lambda r, c: r == "R-C03-3" and "filter" in c)
